@@ -55,6 +55,8 @@ type MetaCfg struct {
 	// UnrelatedOverride: the format being built has an override block that sets something unrelated to the
 	// metadata (umask): everything configured in the base settings must still reach the package.
 	UnrelatedOverride bool `json:"unrelated_override,omitempty"`
+	// ArchInOverride: FormatArch is configured as overrides.<format>.<format>.arch instead of <format>.arch.
+	ArchInOverride bool `json:"arch_in_override,omitempty"`
 }
 
 type RelItem struct {
